@@ -442,17 +442,28 @@ class C02(Prop):
         except Exception:
             stt.count("crosscheck-build-declined")
         rec = Recorder()
+        final = None
         try:
             with rec.recording():
                 if case["family"] == "delta":
                     delta_program(case)
                 else:
-                    run_program(node, mode)
+                    final = run_program(node, mode)
                     if case.get("ast2") is not None:
                         stt.count("pair-of-look-alike-programs")
                         run_program(case["ast2"], mode)
         except Exception as e:
             stt.decline("program-raised:" + innermost_funsor_frame(e))
+        # the composition of all steps: if every step preserved the value, the final result has the program's value (this
+        # also sees a step whose reflected left-hand side is itself mis-built, e.g. by a wrong renaming of bound names)
+        if final is not None and mode != "moment_matching" and not any(n[0] == "approx" for n in __import__("vf.lang", fromlist=["walk"]).walk(node)):
+            from vf.props.c01 import evaluate_against_oracle
+
+            try:
+                evaluate_against_oracle(node, final, stt, "composition-of-all-steps", nonneg_reals=case.get("sem", ("", ""))[0] in ("max", "min"))
+                stt.count("final-result-checked")
+            except Decline as d:
+                stt.count("final-result-undecided:" + d.bucket[:40])
         nonneg = case.get("sem", ("", ""))[0] in ("max", "min") or case["family"] != "semiring"
         # non-semiring families use mixed-sign points except where max/min reductions meet products (oracle rule)
         nonneg = case.get("sem", ("", ""))[0] in ("max", "min")
